@@ -57,3 +57,11 @@ CHECKS["C11"] = dict(
     design_ref="DESIGN.md section 3 C11",
     note="Trusted: NumPy oracle for source values (C01 tolerances), zarr for reading back. Races under threads are sampled, the structural cause (shared chunks) is C05's invariant.",
 )
+
+CHECKS["C18"] = dict(
+    level="exploration",
+    technique="property-based testing with Hypothesis, one seeded run per multi-array entry point (99 entry points derived from the shared op table and by reflection on cubed.Array): same-Spec control call, then the mixed-Spec call under a never-executor with store/file snapshots and plan-DAG inspection; exact rational oracle (fractions.Fraction) for memory-size literals; plan introspection for budget identity",
+    text="For every entry point taking two or more arrays (elementwise functions, all operator dunders incl. reflected and in-place forms, where, clip/diff with array arguments, concat, stack, matmul, tensordot, vecdot, outer, isin, searchsorted, meshgrid, broadcast_arrays, map_blocks, apply_gufunc, take/getitem with a cubed index, compute, plan, visualize, store, to_zarr) two Specs differing in exactly one field (or explicit vs config default) are drawn; the call must raise or - for single-parent outputs / eager index evaluation only - return arrays whose plans do not contain both inputs, and nothing may execute or be written. Budgets in every primitive op and the finalized plan must equal the Spec's. Size literals from a grammar with near-miss units must be interpreted exactly or rejected.",
+    design_ref="DESIGN.md section 3 C18",
+    note="Spec difference = Spec.__eq__ plus comparison of the plain-data fields; refusal types ValueError/TypeError/NotImplementedError; falsy reserved_mem means unset. Sampled, not exhaustive.",
+)
